@@ -111,3 +111,6 @@ pub proof fn lemma_enc_take(ops: Seq<OpCode>, n: int)
         assert(ops.take(n + 1).drop_last() =~= ops.take(n));
     } else { assert(ops.take(n) =~= ops); }
 }
+/// A-DET: spec_cov_weight_b (prelude/core.rs) names what covenant_weight_from_bytes computes: the weight of the decoded program, 0 for
+/// bytes that do not decode. Units outside codec use the name only.
+pub axiom fn axiom_cov_weight_def(b: Seq<u8>) ensures spec_cov_weight_b(b) as int == (match dec_all(b) { Some(ops) => spec_weight(ops), None => 0 });
